@@ -1,6 +1,6 @@
 //go:build verif
 
-// Contracts for package ringbuffer (pool), checked by /verif/gvc (see /verif/DESIGN.md).
+// Contracts for package ringbuffer (pool), checked by /verif/gvc (see /verif/DESIGN.md, C12).
 
 package ringbuffer
 
@@ -9,3 +9,33 @@ package ringbuffer
 //@   mode bv
 //@   ensures 0 <= res && res < 20
 //@   ensures 1 <= n && res < 19 ==> n <= 64 * pow2(res)
+
+// Data invariant of a Pool: its sync.Pool holds only well-formed empty ring buffers (ghost
+// poolring, carried by sync.Pool's assumed contract) and defaultSize is a sane size. It holds for
+// the zero value; calibrate (floating point, not verified) is the only writer of defaultSize.
+//@ pred poolwf(p *Pool) := p != nil && poolring[p.pool] && poolext[p.pool] == 0 && p.defaultSize <= 4611686018427387904
+//@ axiom poolwf(builtinPool)
+//
+//@ func (p *Pool) calibrate()
+//@   noverify floating-point percentile computation and sort.Sort are outside the verified subset
+//@   requires poolwf(p)
+//@   modifies p.calls, p.calibrating, p.defaultSize, p.maxSize, mem(p.calls)
+//@   ensures poolwf(p)
+//
+// Get: the buffer obtained is empty and well formed (fresh from ring.New, or Reset before Put).
+//@ func (p *Pool) Get() *RingBuffer
+//@   requires poolwf(p)
+//@   ensures ring.wf(res) && ring.cnt(res) == 0
+//@   assumes fresh(res)
+//
+//@ func (p *Pool) Put(b *RingBuffer)
+//@   requires poolwf(p) && ring.wf(b)
+//@   modifies b.r, b.w, b.isEmpty, p.calls, p.calibrating, p.defaultSize, p.maxSize, mem(p.calls)
+//
+//@ func Get() *RingBuffer
+//@   ensures ring.wf(res) && ring.cnt(res) == 0
+//@   assumes fresh(res)
+//
+//@ func Put(b *RingBuffer)
+//@   requires ring.wf(b)
+//@   modifies b.r, b.w, b.isEmpty, builtinPool.calls, builtinPool.calibrating, builtinPool.defaultSize, builtinPool.maxSize, mem(builtinPool.calls)
